@@ -621,6 +621,12 @@ class simulation_model():
 
         mymemo = self.memo[equation]
 
+        # times computed as t-self.dt carry floating point noise (0.4-4*0.1 > 0): snap them onto the simulation grid
+        if type(arg) is float and self.dt > 0:
+            on_grid = round(self.starttime + round((arg - self.starttime) / self.dt) * self.dt, 10)
+            if abs(on_grid - arg) <= 1e-9 * max(1.0, abs(arg)):
+                arg = on_grid
+
         if arg in mymemo.keys():
             return mymemo[arg]
         else:
